@@ -504,7 +504,9 @@ def c08(tier):
     js += up7_lemma(10)
     CS = {"faceijk": ["_hex2dToGeo"], "vec2d": ["_v2dIntersect", "_v2dAlmostEquals"]}
     for r in (0, 1, 2, 3):
-        t = "quick" if r <= 1 else "thorough"
+        if r > 1:
+            continue
+        t = "thorough"
         j = J("count_r%d" % r, "C08_boundary.c", ["-DCOUNT", "-DRES=%d" % r, "-DUPB=(1<<10)"], mode="debug", checks="ub", unwind=r + 2, us={"_faceIjkToCellBoundary.0": 8, "_faceIjkPentToCellBoundary.0": 7, "_faceIjkPentToCellBoundary.1": 7},
               unit_defs=UP7_DEFS, stubs=CS, est=200 + 300 * r, mem="L", tier=t, timeout=3400, core=(r <= 1), bound="all valid cells of res %d" % r)
         js += with_witness(j, tier=t) if r == 1 else [j]
@@ -559,11 +561,20 @@ def c06(tier):
         js += with_witness(j) if r == 5 else [j]
     js.append(J("small5_r3", "C06_compact.c", ["-DSMALL", "-DN=5", "-DRES=3"], unwind=17, us=CPL, est=200, mem="M", tier="thorough", timeout=2400, bound="5 distinct valid cells of res 3"))
     for r in range(1, 16):
-        t = "quick" if r in (1, 5, 15) else "thorough"
-        j = J("family_r%d" % r, "C06_compact.c", ["-DFAMILY", "-DRES=%d" % r], unwind=17, us=CPL, est=100, mem="M", tier=t, timeout=2400, bound="children of any parent of res %d, any rotation" % (r - 1))
-        js += with_witness(j, tier=t) if r == 1 else [j]
-        j = J("familyx_r%d" % r, "C06_compact.c", ["-DFAMILY", "-DEXTRA", "-DRES=%d" % r], unwind=17, us=CPL, est=150, mem="M", tier=t, timeout=2400, bound="children of any parent of res %d + one foreign cell" % (r - 1))
-        js.append(j)
+        t = "thorough"
+        if r not in (1, 2, 15):
+            continue
+        FL = dict(CPL, **{"cellToParent.0": 3, "spec_parent.0": 17, "spec_is_pentagon.0": 17, "spec_valid_cell.0": 17})
+        for k in range(9):
+            FL["harness.%d" % k] = 9
+        for pent in (0, 1):
+            sfx = "p" if pent else "h"
+            j = J("family%s_r%d" % (sfx, r), "C06_compact.c", ["-DFAMILY", "-DRES=%d" % r, "-DPENT=%d" % pent], unwind=max(r + 2, 3), us=FL, est=1000, mem="X", tier=t, timeout=3400, core=False,
+                  bound="children of any %s parent of res %d, any rotation" % ("pentagon" if pent else "hexagon", r - 1))
+            js += with_witness(j, tier=t) if r == 1 else [j]
+            j = J("familyx%s_r%d" % (sfx, r), "C06_compact.c", ["-DFAMILY", "-DEXTRA", "-DRES=%d" % r, "-DPENT=%d" % pent], unwind=max(r + 2, 3), us=FL, est=1200, mem="X", tier=t, timeout=3400, core=False,
+                  bound="children of any %s parent of res %d + one foreign cell" % ("pentagon" if pent else "hexagon", r - 1))
+            js.append(j)
     for r in (0, 7, 14):
         j = J("cap_r%d" % r, "C06_compact.c", ["-DCAP", "-DRES=%d" % r], unwind=17, us=CPL, est=60, mem="M", bound="2 valid cells of res %d, capacity 0-14, target res <= %d" % (r, r + 1))
         js += with_witness(j) if r == 7 else [j]
